@@ -293,6 +293,48 @@ def shard_unicode(shard, acc):
     return acc
 
 
+def identifier_vocabulary():
+    """Words a directive name could be confused with: every identifier visible on the parser, its contexts and
+    their modules AS IMPORTED NOW (so a method added to the tree under test is included), cut at every '_'
+    boundary, in three letter cases, plus near-misses of the three real directive names."""
+    import ZConfig.cfgparser
+    import ZConfig.loader
+    import ZConfig.schemaless
+    names = set()
+    for obj in (ZConfig.cfgparser, ZConfig.cfgparser.ZConfigParser, ZConfig.schemaless, ZConfig.schemaless.Parser,
+                ZConfig.schemaless.Context, ZConfig.schemaless.Section, ZConfig.loader.ConfigLoader,
+                ZConfig.loader.BaseLoader, ZConfig):
+        names |= set(dir(obj))
+    words = set()
+    for n in names:
+        words.add(n)
+        parts = [p for p in n.split("_") if p]
+        for i in range(len(parts)):
+            for j in range(i + 1, len(parts) + 1):
+                words.add("_".join(parts[i:j]))
+    for d in ("define", "import", "include"):
+        for i in range(len(d) + 1):
+            words.add(d[:i] + d[i + 1:])
+            words.add(d[:i] + "x" + d[i:])
+            words.add(d[:i] + "_" + d[i:])
+        words.update([d + "s", d + "d", "handle_" + d, d.capitalize(), d.upper(), "un" + d])
+    out = set()
+    for w in words:
+        if w and not any(c.isspace() for c in w):
+            out.update([w, w.lower(), w.upper()])
+    return sorted(out)
+
+
+def shard_directives(shard, acc):
+    lo, hi = shard
+    for w in identifier_vocabulary()[lo:hi]:
+        for line in ("%" + w + " x y", "%" + w, "%" + w + " p", "% " + w + " x"):
+            check_text(line + "\n", acc, "directive-name")
+            check_text("<s>\n  " + line + "\n</s>\n", acc, "directive-name-in-section")
+        acc.extra["directive_names"] += 1
+    return acc
+
+
 def run(tier):
     L = 4 if tier == "quick" else 5
     n = 3 if tier == "quick" else 4
@@ -302,7 +344,9 @@ def run(tier):
         rule="(i) every line of length <= %d over the 15-class alphabet, alone and inside <x>..</x>; "
              "(ii) every text of <= %d lines over a %d-line alphabet; (iii) a 40-line depth-6 seed "
              "with every line replaced by every alphabet line / deleted (%s); (iv) every Unicode code "
-             "point in %d line contexts.  Each text goes through two observers (ZConfigParser with a "
+             "point in %d line contexts; (v) '%%NAME arg' for every identifier visible on the parser / loader / "
+             "schema-less classes and modules of the tree under test, cut at every '_' boundary, in three letter "
+             "cases, plus near-misses of define/import/include.  Each text goes through two observers (ZConfigParser with a "
              "recording context, schemaless.loadConfigFile); events with line numbers, nested tree, "
              "verdict and error line are compared with the reference scanner.  Non-trivial = text with "
              "an event other than key/value, or rejected (counted once per distinct text; shards "
@@ -325,6 +369,8 @@ def run(tier):
     step = 0x110000 // 64
     core.pmap(shard_unicode, [(lo, min(lo + step, 0x110000), nctx) for lo in range(0, 0x110000, step)],
               run.acc)
+    nw = len(identifier_vocabulary())
+    core.pmap(shard_directives, [(lo, lo + 100) for lo in range(0, nw, 100)], run.acc)
     sv = [k for k in run.acc.extra if k.startswith("stack-verdict:")]
     run.acc.states = len(sv)
     run.require(run.acc.classes.get("accepted", 0) > 1000, "few accepted texts")
